@@ -522,6 +522,7 @@ func main() {
 			runPad(t)
 			runTagSeq(t, 5)
 			runRep(t)
+			runNames(t)
 			runSmall(t, 5, maxLen)
 		},
 		Extra: func(tier string, cov map[string]interface{}) {
@@ -530,6 +531,7 @@ func main() {
 			cov["comment_templates"] = len(commentBases)
 			cov["tag_sequence_pieces"] = len(tagPieces)
 			repCoverage(tier, cov)
+			namesCoverage(tier, cov)
 		},
 	})
 }
